@@ -1,0 +1,34 @@
+//go:build verif
+// +build verif
+
+package fat2
+
+// Contracts for the verification machinery in /verif (govc). Comment-only file:
+// it adds no executable code and is compiled only with the build tag `verif`.
+
+//@ props C03 C04 C20 C13
+//@
+//@ spec func sumAmt(xs []AddressAmountTuple, n int) int = n <= 0 ? 0 : sumAmt(xs, n - 1) + xs[n - 1].Amount
+//@ spec func isConv(t *Transaction) bool = len(t.Transfers) == 0 && PTickerInvalid < t.Conversion && t.Conversion < PTickerMax
+//@
+//@ func (*Transaction).IsConversion
+//@   ensures @def result <==> isConv(t)
+//@   modifies nothing
+//@
+//@ func (*Transaction).IsPEGRequest
+//@   ensures @def result <==> (len(t.Transfers) == 0 && t.Conversion == PTickerPEG)
+//@   modifies nothing
+//@
+//@ spec func tickerOrInvalid(x int) bool = PTickerInvalid <= x && x < PTickerMax
+//@
+//@ func (*Transaction).Validate
+//@   arith checked
+//@   requires @ticker_range tickerOrInvalid(t.Conversion)
+//@   ensures @input err == nil ==> t.Input.Address != coinbase
+//@   ensures @exactly_one err == nil ==> ((len(t.Transfers) == 0) != (t.Conversion == PTickerInvalid))
+//@   ensures @sum err == nil && !isConv(t) ==> sumAmt(t.Transfers, len(t.Transfers)) == t.Input.Amount
+//@   ensures @conv_distinct err == nil && isConv(t) ==> t.Input.Type != t.Conversion
+//@   ensures @transfer_has_outputs err == nil && !isConv(t) ==> len(t.Transfers) > 0
+//@   canary @sum_always err == nil ==> sumAmt(t.Transfers, len(t.Transfers)) == t.Input.Amount
+//@   modifies nothing
+//@   loop 1 invariant @rem 0 <= iter && iter <= len(t.Transfers) && remainingInputAmount + sumAmt(t.Transfers, iter) == t.Input.Amount
